@@ -85,6 +85,8 @@ func typeText(e ast.Expr) string {
 		if x.Len == nil {
 			return "[]" + typeText(x.Elt)
 		}
+	case *ast.MapType:
+		return "map[" + typeText(x.Key) + "]" + typeText(x.Value)
 	}
 	return fmt.Sprintf("?%T", e)
 }
@@ -229,8 +231,21 @@ func findMutables(fd *ast.FuncDecl) (map[string]bool, error) {
 					} else {
 						assigned(id.Name)
 					}
+				} else if r := c04bPathRoot(l); r != "" && x.Tok != token.DEFINE {
+					assigned(r) // `v.f = e`, `v.f[k] = e`: the record held by v is replaced
 				}
 			}
+		case *ast.SwitchStmt:
+			scopes = append(scopes, map[string]bool{})
+			if x.Init != nil {
+				stmt(x.Init)
+			}
+			for _, cl := range x.Body.List {
+				if cc, ok := cl.(*ast.CaseClause); ok {
+					block(cc.Body)
+				}
+			}
+			scopes = scopes[:len(scopes)-1]
 		case *ast.IncDecStmt:
 			if id, ok := x.X.(*ast.Ident); ok {
 				assigned(id.Name)
@@ -322,6 +337,9 @@ func (c *CPS) ex(e ast.Expr) (string, error) {
 	case *ast.SelectorExpr:
 		k := goKey(x)
 		r := rootIdent(x)
+		if n, ok := c.Names[k]; ok && r != "" && c.isLocal(r) { // a configured rendering of this very path
+			return n, nil
+		}
 		if r != "" && c.isLocal(r) { // field path of a local value: same field names in the Lean structures
 			b, err := c.ex(x.X)
 			if err != nil {
@@ -357,7 +375,13 @@ func (c *CPS) ex(e ast.Expr) (string, error) {
 			return n, nil
 		}
 		return "", fmt.Errorf("unsupported index expression %s", goKey(x))
+	case *ast.CompositeLit:
+		return c.c04bComposite(x)
 	case *ast.UnaryExpr:
+		if cl, ok := x.X.(*ast.CompositeLit); ok && x.Op == token.AND {
+			// &T{…}: a freshly allocated record nobody else refers to is modelled by its value
+			return c.c04bComposite(cl)
+		}
 		s, err := c.ex(x.X)
 		if err != nil {
 			return "", err
@@ -442,6 +466,14 @@ func (c *CPS) ex(e ast.Expr) (string, error) {
 		}
 		if (head == "int" || head == "int64" || head == "uint32") && len(x.Args) == 1 {
 			return c.ex(x.Args[0])
+		}
+		if head == "make" && len(x.Args) >= 1 {
+			// an empty slice / map: the zero value of the configured Lean type (capacity hints are irrelevant)
+			t, ok := c.GoTypes[typeText(x.Args[0])]
+			if !ok {
+				return "", fmt.Errorf("make of unknown type %s", typeText(x.Args[0]))
+			}
+			return "(default : " + t + ")", nil
 		}
 		f, ok := c.Calls[head]
 		if !ok {
@@ -637,6 +669,12 @@ func (c *CPS) blk(stmts []ast.Stmt, k, ind string) (string, error) {
 			}
 			return "if " + cond + " then (\n" + ind + "  " + t + ")\n" + ind + "else (\n" + ind + "  " + e + ")", nil
 		})
+	case *ast.SwitchStmt:
+		ifs, err := c04bSwitchToIf(x)
+		if err != nil {
+			return "", err
+		}
+		return c.blk(append([]ast.Stmt{ifs}, rest...), k, ind)
 	case *ast.RangeStmt:
 		if x.Tok != token.DEFINE {
 			return "", fmt.Errorf("range without :=")
@@ -730,6 +768,9 @@ func (c *CPS) assign(x *ast.AssignStmt, rest []ast.Stmt, k, ind string) (string,
 			return "", fmt.Errorf("assignment to %s which is not a local variable", id.Name)
 		}
 		return id.Name, nil
+	}
+	if len(x.Lhs) == 1 && len(x.Rhs) == 1 && x.Tok == token.ASSIGN && c04bPathRoot(x.Lhs[0]) != "" {
+		return c.c04bAssignPath(x, rest, k, ind)
 	}
 	if len(x.Lhs) == 1 && len(x.Rhs) == 1 {
 		n, err := lhsName(x.Lhs[0])
